@@ -526,6 +526,7 @@ func finishCheck(ps *PropSpec, tier string, seed int, t0 time.Time, work string,
 	witMismatch := []string{}
 	if !noReplay && (len(viols) > 0 || len(wits) > 0) {
 		runners := map[*loadedGroup]*replayRunner{}
+		raceRunners := map[*loadedGroup]*replayRunner{}
 		getRunner := func(lg *loadedGroup) (*replayRunner, error) {
 			if rr, ok := runners[lg]; ok {
 				return rr, nil
@@ -537,6 +538,17 @@ func finishCheck(ps *PropSpec, tier string, seed int, t0 time.Time, work string,
 			runners[lg] = rr
 			return rr, nil
 		}
+		getRaceRunner := func(lg *loadedGroup) (*replayRunner, error) {
+			if rr, ok := raceRunners[lg]; ok {
+				return rr, nil
+			}
+			rr, err := buildReplayRunnerOpt(lg, work, true)
+			if err != nil {
+				return nil, err
+			}
+			raceRunners[lg] = rr
+			return rr, nil
+		}
 		for i, v := range viols {
 			rf := ReplayFile{Property: prop, Group: v.Group.g.Name, Harness: v.Harness, Obligation: v.V.ID, Kind: v.V.Kind, Label: v.V.Label, Inputs: v.V.Inputs, Expect: expectOf(v.V)}
 			path := filepath.Join(replayDir, fmt.Sprintf("%s-%d.json", v.Harness, i))
@@ -544,12 +556,24 @@ func finishCheck(ps *PropSpec, tier string, seed int, t0 time.Time, work string,
 			os.WriteFile(path, b, 0o644)
 			v.Replay = path
 			rr, err := getRunner(v.Group)
+			if v.V.Kind == "ownership" || strings.HasPrefix(v.Harness, "H_C15_") {
+				rr, err = getRaceRunner(v.Group)
+			}
 			if err != nil {
 				v.Verdict = "ERROR replay build failed: " + firstLine(err.Error())
 				continue
 			}
 			out := rr.run(v.Harness, path)
 			v.Verdict = judgeReplay(v.V, out)
+			if strings.HasPrefix(v.Harness, "H_C15_") && !strings.HasPrefix(v.Verdict, "REPRODUCED") {
+				// C15 harnesses replay as a goroutine workload under the race detector: any failure of that
+				// workload (data race, foreign value, panic) confirms the single-thread obligation that failed
+				if strings.Contains(out, "WARNING: DATA RACE") {
+					v.Verdict = "REPRODUCED data race reported by the Go race detector"
+				} else if strings.Contains(out, "VERIF-REPLAY: REPRODUCED") {
+					v.Verdict = "REPRODUCED " + lastLines(out, 1)
+				}
+			}
 		}
 		// witnesses: inputs of feasible complete paths must run natively without failure and observe the same values
 		var mu sync.Mutex
